@@ -9,6 +9,7 @@
 //!   opt:N  "on" for every option that is on
 //!   trap:C "ignore" | "cmd:<text>"  (conditions with a non-default action)
 //!   disp:S "ignore" | "catch"       (kernel-level disposition, a fixed signal list)
+//!   pend:S "1" the signal was caught and its trap action has not run yet (same list)
 //!   cwd, umask (3 octal digits)
 //!   fd:N   "o<k>" identity of the open file description (k numbered in order of
 //!          first appearance within the run), fdx:N "1" if close-on-exec
@@ -150,6 +151,19 @@ fn flat_snapshot(env: &mut VEnv) -> Flat {
     for t in s["traps"].as_array().cloned().unwrap_or_default() {
         m.insert(format!("trap:{}", t[0].as_str().unwrap_or("")), t[1].as_str().unwrap_or("").to_string());
     }
+    {
+        let pend: Vec<String> = env
+            .traps
+            .iter()
+            .filter(|(_, cur, _)| cur.pending)
+            .map(|(cond, _, _)| cond.to_string(&env.system).into_owned())
+            .collect();
+        for name in pend {
+            if SIGS.iter().any(|(n, _)| *n == name) {
+                m.insert(format!("pend:{name}"), "1".into());
+            }
+        }
+    }
     m.insert("cwd".into(), normal_path(s["cwd"].as_str().unwrap_or("")));
     m.insert("umask".into(), format!("{:03o}", s["umask"].as_u64().unwrap_or(0)));
     let pid = env.system.getpid();
@@ -197,6 +211,9 @@ fn xsnap_main(env: &mut VEnv, args: Vec<Field>) -> Pin<Box<dyn Future<Output = B
 #[derive(Clone, Debug)]
 pub struct Scenario {
     pub kind: String,
+    /// "main": the construct is a command of the script; "trap": it is executed from
+    /// inside a trap action while another caught signal is pending
+    pub ctx: String,
     pub pre: Vec<String>,
     pub ch: Vec<Vec<String>>,
     pub post: Vec<String>,
@@ -214,25 +231,52 @@ impl Scenario {
         if ch.len() != want {
             return None;
         }
-        Some(Scenario { kind, pre: strs(&v["pre"]), ch, post: strs(&v["post"]) })
+        let ctx = v["ctx"].as_str().unwrap_or("main").to_string();
+        if ctx != "main" && ctx != "trap" {
+            return None;
+        }
+        Some(Scenario { kind, ctx, pre: strs(&v["pre"]), ch, post: strs(&v["post"]) })
     }
     pub fn to_json(&self) -> Value {
-        json!({"kind": self.kind, "pre": self.pre, "ch": self.ch, "post": self.post})
+        json!({"kind": self.kind, "ctx": self.ctx, "pre": self.pre, "ch": self.ch, "post": self.post})
     }
 
     /// The script.  One command per line; the probes are the observation points
     /// named in the property ("before"/"after" in the parent, "entry"/"end" in
     /// each subshell).
     pub fn render(&self) -> String {
+        let (main, act) = self.render_parts();
+        match act {
+            Some(a) => format!("{main}--- /tmp/act\n{a}"),
+            None => main,
+        }
+    }
+
+    /// (script, content of /tmp/act).  In the "trap" context the part from
+    /// "before" to "after" is the action of a SIGUSR2 trap (a dot script), run
+    /// after SIGUSR1 -- trapped with a command, too -- has been caught.
+    pub fn render_parts(&self) -> (String, Option<String>) {
+        let mut head = String::new();
+        head.push_str("xsnap init\n");
+        for c in &self.pre {
+            head.push_str(c);
+            head.push('\n');
+        }
+        let body = self.render_construct();
+        if self.ctx == "trap" {
+            head.push_str("trap 'probe s' USR1\ntrap '. /tmp/act' USR2\nkill -s USR2 $$\n");
+            (head, Some(format!("kill -s USR1 $$\n{body}")))
+        } else {
+            (format!("{head}{body}"), None)
+        }
+    }
+
+    fn render_construct(&self) -> String {
         let mut s = String::new();
         let line = |s: &mut String, l: &str| {
             s.push_str(l);
             s.push('\n');
         };
-        line(&mut s, "xsnap init");
-        for c in &self.pre {
-            line(&mut s, c);
-        }
         line(&mut s, "xsnap before");
         // In the concurrent kinds every process has a preemption point before
         // each of its steps (first look included), see `pause`.
@@ -361,6 +405,9 @@ pub struct Obs {
     pub choices: Vec<(usize, usize)>,
     pub events: Vec<Value>,
     pub plan: Vec<String>,
+    /// (pid, first argument) of every `probe` event: the trap actions and
+    /// function bodies of the alphabet are `probe <tag>`
+    pub probes: Vec<(i32, String)>,
 }
 
 pub fn run_once(sc: &Scenario, plan: &[String], schedule: Schedule) -> Obs {
@@ -368,7 +415,7 @@ pub fn run_once(sc: &Scenario, plan: &[String], schedule: Schedule) -> Obs {
     OFD_IDS.with(|p| p.borrow_mut().clear());
     PLAN.with(|p| *p.borrow_mut() = plan.to_vec());
     TURNS.with(|t| t.borrow_mut().clear());
-    let script = sc.render();
+    let (script, act) = sc.render_parts();
     let mut cfg = ShellCfg::command_with(&[], &script, &["p", "q"]);
     cfg.schedule = schedule;
     cfg.step_limit = 100_000;
@@ -376,6 +423,9 @@ pub fn run_once(sc: &Scenario, plan: &[String], schedule: Schedule) -> Obs {
         FileSpec::Regular { path: "/dev/null".into(), content: vec![], mode: 0o666 },
         FileSpec::Regular { path: "/tmp/in".into(), content: b"input\n".to_vec(), mode: 0o644 },
     ];
+    if let Some(a) = act {
+        cfg.files.push(FileSpec::Regular { path: "/tmp/act".into(), content: a.into_bytes(), mode: 0o644 });
+    }
     cfg.setup = Some(Box::new(|env, state| {
         ST.with(|s| *s.borrow_mut() = Some(Rc::clone(state)));
         let now = std::time::Instant::now();
@@ -389,7 +439,11 @@ pub fn run_once(sc: &Scenario, plan: &[String], schedule: Schedule) -> Obs {
     let mut snaps = HashMap::new();
     let mut out = String::new();
     let mut dup_tag = false;
+    let mut probes: Vec<(i32, String)> = vec![];
     for e in &r.events {
+        if e["ev"] == "probe" && e["args"][0] != "cs" {
+            probes.push((e["pid"].as_i64().unwrap_or(0) as i32, e["args"][0].as_str().unwrap_or("").to_string()));
+        }
         if e["ev"] == "xsnap" {
             let tag = e["tag"].as_str().unwrap_or("").to_string();
             let mut m = Flat::new();
@@ -418,7 +472,7 @@ pub fn run_once(sc: &Scenario, plan: &[String], schedule: Schedule) -> Obs {
         outcome = format!("{outcome}+duplicate-snapshot");
     }
     PINS.with(|p| p.borrow_mut().clear());
-    Obs { outcome, status: r.status, snaps, out, stderr: r.stderr_str(), choices: r.choices.clone(), events: r.events, plan: plan.to_vec() }
+    Obs { outcome, status: r.status, snaps, out, stderr: r.stderr_str(), choices: r.choices.clone(), events: r.events, plan: plan.to_vec(), probes }
 }
 
 fn get<'a>(m: &'a Flat, k: &str) -> &'a str {
@@ -502,7 +556,26 @@ pub fn record(sc: &Scenario, obs: &Obs) -> Value {
     }
     let ok = miss.is_empty();
     let d = |a: &Flat, b: &Flat| if ok { diff(a, b) } else { vec![] };
-    let chj: Vec<Value> = ch.iter().map(|(en, end)| json!({"d_entry": d(&before, en), "d_end": d(en, end)})).collect();
+    // which process ran which `probe <tag>` (sorted sets): the subshells by the
+    // pid of their entry snapshot, the parent, and any other process
+    let tags_of = |f: &dyn Fn(i32) -> bool| -> Vec<String> {
+        let mut v: Vec<String> = obs.probes.iter().filter(|(p, _)| f(*p)).map(|(_, t)| t.clone()).collect();
+        v.sort();
+        v.dedup();
+        v
+    };
+    let child_pids: Vec<i32> =
+        (0..sc.ch.len()).map(|j| obs.snaps.get(&format!("entry{}", j + 1)).map(|x| x.0).unwrap_or(-1)).collect();
+    let chj: Vec<Value> = ch
+        .iter()
+        .enumerate()
+        .map(|(j, (en, end))| {
+            let pid = child_pids[j];
+            json!({"d_entry": d(&before, en), "d_end": d(en, end), "probes": tags_of(&|p| p == pid && p != main_pid)})
+        })
+        .collect();
+    let parent_probes = tags_of(&|p| p == main_pid);
+    let other_probes = tags_of(&|p| p != main_pid && !child_pids.contains(&p));
     let init_obj: Map<String, Value> = init.iter().map(|(k, v)| (k.clone(), json!(v))).collect();
     let mut init_v = Value::Object(init_obj);
     if init.is_empty() {
@@ -519,6 +592,8 @@ pub fn record(sc: &Scenario, obs: &Obs) -> Value {
         "ch": chj,
         "d_after": d(&before, &after),
         "out": obs.out,
+        "probes": parent_probes,
+        "oprobes": other_probes,
     })
 }
 
